@@ -10,6 +10,18 @@
 using FS = celma::common::FixedString<CAP>;
 namespace {
 // arbitrary valid FixedString: symbolic length <= CAP, symbolic non-NUL bytes
+#if CAP > 16
+// large capacities (around the switch of the internal length type from 8 to 16 bits): length CAP-3 .. CAP,
+// filler content with the last four characters symbolic
+void mk(FS& f, std::string& ref, const char* name) {
+   unsigned short len = (unsigned short) (CAP - (vs_u8("len") & 3));
+   char b[CAP + 1]; std::memset(b, 'x', CAP);
+   vs_sym(b + CAP - 4, 4, name);
+   for (unsigned i = CAP - 4; i < CAP; ++i) vs_assume(b[i] != 0);
+   b[len] = 0;
+   f.assign(b); ref.assign(b, len);
+}
+#else
 void mk(FS& f, std::string& ref, const char* name) {
    unsigned len = vs_u8("len"); vs_assume(len <= CAP);
    char b[CAP + 1]; vs_sym(b, CAP, name);
@@ -17,6 +29,7 @@ void mk(FS& f, std::string& ref, const char* name) {
    b[len] = 0;
    f.assign(b); ref.assign(b, len);
 }
+#endif
 std::string mk_str(unsigned maxlen, const char* name) {
    unsigned len = vs_u8("slen"); vs_assume(len <= maxlen);
    char b[8]; vs_sym(b, maxlen, name);
@@ -27,6 +40,7 @@ std::string cut(const std::string& s) { return s.size() > CAP ? s.substr(0, CAP)
 void same(const FS& f, const std::string& want, const char* what) {
    vs_assert(f.length() <= CAP, "C10 length <= capacity");
    vs_assert(f.c_str()[f.length()] == 0, "C10 NUL at length");
+   vs_assert(std::strlen(f.c_str()) == f.length(), "C10 no NUL character was stored: the length equals the C string length of the buffer");
    std::string w = cut(want);
    vs_assert(f.length() == w.size() && std::memcmp(f.c_str(), w.data(), w.size()) == 0, what);
 }
@@ -39,6 +53,11 @@ HX void hx_fs_str(uint64_t op, uint64_t domain) {
    std::string s = mk_str(3, "str");
    size_t p = vs_u64("pos"), n = vs_u64("cnt"), p2 = vs_u64("pos2"), n2 = vs_u64("cnt2");
    if (domain) vs_assume(p <= ref.size() && p2 <= s.size());
+#if CAP > 16
+   // large capacities: positions near both ends (the middle is filler) or huge, counts 0..3 or huge
+   vs_assume(p <= 2 || (p + 6 >= ref.size() && p <= ref.size() + 2) || p >= (size_t) -2);
+   vs_assume(n <= 3 || n >= (size_t) -2); vs_assume(n2 <= 3 || n2 >= (size_t) -2); vs_assume(p2 <= 4 || p2 >= (size_t) -2);
+#endif
    switch (op) {
    case 0: { FS g(s); same(g, s, "C11 FixedString(std::string)"); break; }
    case 1: f.assign(s); same(f, s, "C11 assign(std::string)"); break;
